@@ -15,6 +15,15 @@ Theorem table_functional_no_orphans : forall tls ops, table_ok (run tls ops).
 Proof. exact ok_run. Qed.
 Print Assumptions table_functional_no_orphans.
 
+(* conversely every peer accepted by a service call has an entry afterwards: in the table, or
+   (TLS, handshake still pending) in the pending table *)
+Theorem accepted_peers_have_entries : forall tls s cas hs ca,
+  table_ok s -> In ca cas ->
+  let s' := step tls s (ServiceConnects cas hs) in
+  has_entry ca (ixes s') \/ (tls = true /\ has_entry ca (cxes s')).
+Proof. exact accepted_have_entries. Qed.
+Print Assumptions accepted_peers_have_entries.
+
 (* plain server: accepting ca while a stale entry for ca exists raises nothing, shuts the stale
    socket down, maps ca to the new incomer (open) at the same table position and touches no
    other entry *)
